@@ -30,6 +30,10 @@ type ResSlot struct {
 type C17Case struct {
 	Slots       []ResSlot `json:"slots"`
 	Unsatisfied bool      `json:"unsat,omitempty"` // the function has a parameter nothing can satisfy
+	// Once / Calls: the function is created with FuncOnce and called Calls
+	// times; every call must report the values of the single execution.
+	Once  bool `json:"once,omitempty"`
+	Calls int  `json:"calls,omitempty"`
 }
 
 var (
@@ -94,7 +98,12 @@ func evalC17(c *engine.Case) engine.Verdict {
 		}
 		return res
 	})
-	f, err := argmapper.NewFunc(fn.Interface())
+	var fopts []argmapper.Arg
+	if x.Once {
+		fopts = append(fopts, argmapper.FuncOnce())
+		v.Class("run-once-repeated-calls")
+	}
+	f, err := argmapper.NewFunc(fn.Interface(), fopts...)
 	if err != nil {
 		v.Failf("NewFunc rejected a plain positional function: %v", err)
 		return v
@@ -103,12 +112,26 @@ func evalC17(c *engine.Case) engine.Verdict {
 	if !x.Unsatisfied {
 		args = append(args, argmapper.Typed(engine.T0{K: 1}))
 	}
+	calls := 1
+	if x.Once && x.Calls > 1 && !x.Unsatisfied {
+		calls = x.Calls
+	}
 	var res argmapper.Result
 	var o engine.Outcome
-	engine.Protect(&o, func() { res = f.Call(args...) })
-	if o.Panic != "" {
-		v.Failf("Call panicked: %s", o.Panic)
-		return v
+	for ci := 0; ci < calls; ci++ {
+		engine.Protect(&o, func() { res = f.Call(args...) })
+		if o.Panic != "" {
+			v.Failf("Call %d panicked: %s", ci, o.Panic)
+			return v
+		}
+		if ci < calls-1 {
+			// intermediate calls of a memoized function: same accessors as the last
+			// one, which is checked in full below
+			if ran != 1 {
+				v.Failf("run-once function executed %d times after %d calls", ran, ci+1)
+				return v
+			}
+		}
 	}
 	n := len(x.Slots)
 	finalErr := n > 0 && x.Slots[n-1].Kind == "error"
@@ -201,6 +224,9 @@ func genC17(g engine.G) *engine.Case {
 		}
 	}
 	x.Unsatisfied = g.Pct(10)
+	if g.Pct(30) {
+		x.Once, x.Calls = true, g.Int(2, 3)
+	}
 	c := &engine.Case{}
 	c.SetX(&x)
 	return c
